@@ -220,6 +220,20 @@ def replay_figures(index, ob, seed, saved=None):
                 blip = {".png": "\\pngblip", ".jpg": "\\jpegblip", ".jpeg": "\\jpegblip", ".emf": "\\emfblip"}[ext]
                 if not (m and m.group(2) == blip and m.group(7).replace("\n", "") == blobs[k].hex() and int(m.group(5)) == int(wk * 1440) and int(m.group(6)) == int(hk * 1440)):
                     return _r(True, input=dict(inp, figure=k), observed=ch[:160], function="encode_figure")
+        # the same file listed twice is embedded twice (one figure per listed path, in the given order)
+        pa, pb = os.path.join(tmp, "f3_0" + os.path.splitext([p for p in os.listdir(tmp) if p.startswith("f3_0")][0])[1]), None
+        cand = sorted(p for p in os.listdir(tmp) if p.startswith("f3_"))
+        if len(cand) >= 2:
+            pa, pb = os.path.join(tmp, cand[0]), os.path.join(tmp, cand[1])
+            rep = [pa, pb, pa]
+            data, fmts = figmod.rtf_read_figure(rep)
+            want = [open(p, "rb").read() for p in rep]
+            if [bytes(d) for d in data] != want:
+                return _r(True, input={"figures": ["a", "b", "a"]}, observed=f"{len(data)} figures read", expected="3 figures: a, b, a", function="rtf_read_figure")
+            out = fs.encode_figure(rtf.RTFFigure(figures=rep, fig_width=[1.0, 2.0, 3.0], fig_height=2.0))
+            if out.count("{\\pict") != 3 or out.count("\\page ") != 2 or "\\picwgoal4320" not in out.split("\\page ")[-1]:
+                return _r(True, input={"figures": ["a", "b", "a"], "fig_width": [1.0, 2.0, 3.0]}, observed=f"{out.count(chr(123) + chr(92) + 'pict')} pictures, {out.count(chr(92) + 'page ')} page breaks",
+                          expected="3 pictures, 2 page breaks, third figure 3.0 in wide", function="encode_figure")
     finally:
         shutil.rmtree(tmp, ignore_errors=True)
     return _r(False)
@@ -419,7 +433,9 @@ def target(kind):
         return rtf.RTFDocument(df=pl.DataFrame({"b": [3, 4]}), rtf_body=rtf.RTFBody(), rtf_page=rtf.RTFPage(border_last=""))
     if kind == "coloured":
         return rtf.RTFDocument(df=pl.DataFrame({"a": [1, 2, 3]}), rtf_body=rtf.RTFBody(text_color=["green"]), rtf_title=rtf.RTFTitle(text="t", text_color="red"))
-print(json.dumps({k: target(k).rtf_encode() for k in ("multi_coloured", "plain_no_page_border", "coloured")}))
+    if kind == "paginated_default_header":
+        return rtf.RTFDocument(df=pl.DataFrame({"a": [str(i) for i in range(30)], "b": [str(i) for i in range(30)]}), rtf_page=rtf.RTFPage(nrow=12))
+print(json.dumps({k: target(k).rtf_encode() for k in ("multi_coloured", "plain_no_page_border", "coloured", "paginated_default_header")}))
 '''
 
 
@@ -437,6 +453,8 @@ def replay_purity(index, ob, seed, saved=None):
                                    rtf_body=[rtf.RTFBody(text_color="red"), rtf.RTFBody(text_color="blue")])
         if kind == "plain_no_page_border":
             return rtf.RTFDocument(df=pl.DataFrame({"b": [3, 4]}), rtf_body=body or rtf.RTFBody(), rtf_page=rtf.RTFPage(border_last=""))
+        if kind == "paginated_default_header":
+            return rtf.RTFDocument(df=pl.DataFrame({"a": [str(i) for i in range(30)], "b": [str(i) for i in range(30)]}), rtf_page=rtf.RTFPage(nrow=12))
         return rtf.RTFDocument(df=pl.DataFrame({"a": [1, 2, 3]}), rtf_body=rtf.RTFBody(text_color=["green"]), rtf_title=rtf.RTFTitle(text="t", text_color="red"))
 
     def failing_encode():
@@ -450,7 +468,7 @@ def replay_purity(index, ob, seed, saved=None):
     # 1. a failed encode, then documents of every kind
     histories.append(("encode raising ValueError", lambda: failing_encode(), None))
     # 2. encode twice
-    for kind in ("multi_coloured", "coloured", "plain_no_page_border"):
+    for kind in ("multi_coloured", "coloured", "plain_no_page_border", "paginated_default_header"):
         d = tgt(kind)
         a, b = d.rtf_encode(), d.rtf_encode()
         if a != b or a != base[kind]:
@@ -1021,7 +1039,7 @@ def replay_unicode_document(index, ob, seed, saved=None):
     body cell, page_by heading, subline_by heading, footnote, source, page header / footer) are read back intact by an RTF reader."""
     import polars as pl
     rtf = index.real_module("rtflite")
-    texts = ["Café München", "α-blocker ≥ 5 mg", "東京 \U0001F600", "naïve ± 0.5", "plain ascii"]
+    texts = ["Café München", "α-blocker ≥ 5 mg", "東京 \U0001F600", "naïve ± 0.5", "plain ascii", "ends with a no-break space\u00a0", "\u3000leading and trailing ideographic space\u3000"]
     positions = ["title", "subline", "header", "cell", "page_by_heading", "subline_by_heading", "footnote_table", "footnote_par", "footnote_lines", "source", "page_header", "page_footer"]
     for pos in positions:
         for t in texts:
